@@ -106,6 +106,19 @@ def run(ctx):
                             r["err"] = type(ex).__name__
                         F.append(r)
                         ctx.count(f"f{i}/{k}/{p}/{signed}/{neg}")
+    # outside the statement (it names no coordinate domain): what the writers do with southern / western coordinates
+    neg = []
+    for fn, v in ((MBXML.write_latitude, -12.345345), (MBXML.write_latitude, -0.000001), (MBXML.write_longitude, -73.935242), (MBXML.write_longitude, -180.0)):
+        try:
+            neg.append(fn(v).hex())
+        except Exception as ex:  # noqa
+            neg.append(type(ex).__name__)
+    if all(x == "OverflowError" for x in neg):
+        ctx.outside("MBXML coordinate writers refuse negative latitudes / longitudes (OverflowError: the fields are written and, in the XML view, read as "
+                    "unsigned numbers), so southern and western positions cannot be expressed; C14 asks that the writers be inverted by the view's "
+                    "formulas and names no coordinate domain - the check covers latitude 0..90 and longitude 0..360")
+    else:
+        ctx.note("negative_coordinates", neg)
     # coordinates on the 1e-6 grid
     n = 4000 if ctx.quick else 100000
     lat_grid = [0, 1, 2, 45_000_000, 89_999_999, 90_000_000, 12_345_345] + [rng.randrange(0, 90_000_001) for _ in range(n)]
